@@ -634,3 +634,8 @@ add("s-room-for-new-points-in-a-local", S, ["C18"], "dfols/controller.py", "    
     "            room = params(\"restarts.max_npt\") - self.model.npt()\n            num_pts_to_add = min(params(\"restarts.increase_npt_amt\"), room)")
 add("s-insert-position-written-out", S, ["C17"], "dfols/model.py", "        k = self.npt()\n        self.points = np.insert(self.points, k, x, axis=0)", "        k = min(self.num_pts, self.npt_so_far)\n        self.points = np.insert(self.points, k, x, axis=0)")
 add("s-saved-row-copied-with-np-copy", S, ["C19"], "dfols/controller.py", "dk = D[k,:].copy()", "dk = np.copy(D[k,:])", all_occurrences=True)
+add("s-furthest-points-limit-in-a-local", S, ["C04", "C18"], "dfols/controller.py",
+    "        furthest_points = np.argsort(all_sq_dist)[::-1]  # indices from furthest to closest (last is kopt)\n\n        for i in range(min(num_pts_to_move, len(furthest_points) - 1)):\n            # Determine which point to update (knew)\n            knew = furthest_points[i]\n\n            # Using adelt",
+    "        furthest_points = np.argsort(all_sq_dist)[::-1]  # indices from furthest to closest (last is kopt)\n        num_moves = min(num_pts_to_move, len(furthest_points) - 1)\n\n        for i in range(num_moves):\n            # Determine which point to update (knew)\n            knew = furthest_points[i]\n\n            # Using adelt")
+add("s-model-increase-test-in-a-local", S, ["C04"], "dfols/controller.py", "        if pred_reduction < 0.0:\n            if len(self.model.projections) > 1:",
+    "        model_increase = pred_reduction < 0.0\n        if model_increase:\n            if len(self.model.projections) > 1:")
